@@ -70,7 +70,7 @@ impl Cone {
         } else {
             Some(Either::Left(Self::new(
                 self.half_height * scale.y,
-                self.radius * scale.x,
+                self.radius * scale.x.abs(),
             )))
         }
     }
